@@ -580,3 +580,29 @@ for _cell in BOX_CELLS:
         register(Obligation(name=f"C10.get_Eewald.image_box_contains_cutoff_sphere[{_cell}{'' if _par == 'default' else ',' + _par}]", prop=PROP, engine="X",
                             functions=["eminus.energies:get_Eewald"], run=ImageBox(_cell, _par), assumes=("cpython",),
                             doc=f"{_cell} cell ({_par} parameters): every lattice vector within tmax and every reciprocal vector within gcut is part of the Ewald sums (exhaustive enumeration)"))
+
+
+class StoredEwald:
+    """BOUNDED: the ion-ion energy an SCF object reports after run() is the lattice sum of its CURRENT geometry (first run, geometry replaced, run again)."""
+
+    def __call__(self, ob, tier, seed):
+        from contracts.c19_scf import ScfHistories
+        from pycv.framework import BOUNDED_OK
+
+        try:
+            bad = [b for b in ScfHistories().problems() if "stored_Eewald" in b or "raised" in b]
+        except Exception as e:  # noqa: BLE001
+            bad = [dict(raised=f"{type(e).__name__}: {e}")]
+        if bad:
+            return Result(REFUTED, backend="native", witness=bad[0], replayed=True, replay_info=dict(failing=bad[:3]), detail=f"stored Ewald energy is not that of the current geometry: {bad[0]}")
+        return Result(BOUNDED_OK, backend="native", detail="bounded: H2 in a triclinic cell: run, cell doubled, run, atom moved, run: energies.Eewald == get_Eewald(current atoms)")
+
+    def replay(self, wit):
+        from contracts.c19_scf import ScfHistories
+
+        bad = [b for b in ScfHistories().problems() if "stored_Eewald" in b or "raised" in b]
+        return bool(bad), dict(failing=bad[:3])
+
+
+register(Obligation(name="C10.scf.stored_Eewald_is_current_geometry", prop=PROP, engine="B", bounded=True, run=StoredEwald(), functions=["eminus.scf:SCF.run", "eminus.energies:get_Eewald"],
+                    doc="BOUNDED: SCF.run stores the Ewald energy of the geometry it was run for (not one from an earlier run of the same object)"))
